@@ -119,8 +119,8 @@ def stepL2R64Q (st : St) (cmd : List String) (got : String) : Option (St × Verd
         let exact : Verdict :=
           if before.all (·.wf) then
             let r := renderRep64 (f2 before)
-            if r != toks.getD n "" then some ("L2 aggregate model = Go representation; model: " ++ r.take 400)
-            else if !rz.wf then some ("well-formed result of " ++ op ++ " on well-formed inputs")
+            if !rz.wf then some ("well-formed result of " ++ op ++ " on well-formed inputs")
+            else if r != toks.getD n "" then some ("L2 aggregate model = Go representation; model: " ++ r.take 400)
             else none
           else none
         some (st', firstFail [
@@ -144,9 +144,9 @@ def stepL2R64Q (st : St) (cmd : List String) (got : String) : Option (St × Verd
           let exact : Verdict :=
             if rb.wf then
               let r := renderRep64 (sem.f2 rb)
-              if r != raS then some ("L2 mutator model = Go representation; model: " ++ r.take 400)
+              if !ra.wf then some ("well-formed result of " ++ op ++ " on a well-formed receiver")
               else if sem.tok2 rb != tok then some ("L2 model result token " ++ sem.tok2 rb)
-              else if !ra.wf then some ("well-formed result of " ++ op ++ " on a well-formed receiver")
+              else if r != raS then some ("L2 mutator model = Go representation; model: " ++ r.take 400)
               else none
             else none
           some (st', firstFail [
